@@ -2760,9 +2760,13 @@ class Mesh:
                     # Found a region with a lower boundary - start stepping through
                     # y-connections from here
                     break
-                # note, if no region with connections['lower']=None is found, then some
-                # arbitrary region will be 'first_region' after this loop. This is OK,
-                # as this region must be part of a periodic group, which we will handle.
+            else:
+                # No region with connections['lower']=None is left, so the remaining
+                # regions form periodic (core) groups. Start from the first one in the
+                # list, i.e. the first in y-index order: the integrated quantities
+                # (poloidal_distance, zShift, chi) are then measured from the start of
+                # the core in the global grid, where BOUT++ puts the twist-shift.
+                i, first_region = 0, region_list[0]
 
             # Find all the regions connected in the y-direction to 'first_region' and
             # add them to 'group'. Remove them from 'region_list' since each region can
